@@ -25,7 +25,6 @@ type c19ReqPlan struct {
 	r        *c19Req
 	selected bool
 	vals     int
-	cached   map[*c19DS]bool
 	used     []*c19DS
 }
 
@@ -34,7 +33,7 @@ type c19ReqPlan struct {
 // Shapes are chosen by forking, everything else stays symbolic. A request that will not get past its look-up
 // (query fails, not found, validator not selected) gets the minimal shape: its content is never read.
 func c19PlanRequest(e *c19Env, id types.RequestID, maxRaw, nDS int, eidBase int) *c19ReqPlan {
-	p := &c19ReqPlan{cached: map[*c19DS]bool{}}
+	p := &c19ReqPlan{}
 	r := &c19Req{id: id}
 	r.fails = vs.Pick("request_query_fails", e.maxTry+1)
 	r.found = r.fails < e.maxTry && vs.Bool("request_exists")
@@ -65,6 +64,7 @@ func c19PlanRequest(e *c19Env, id types.RequestID, maxRaw, nDS int, eidBase int)
 				n = c19PickLen()
 			}
 			d = e.addDS(types.DataSourceID(1+j), n)
+			d.cached = relevant && vs.Bool("cached")
 			d.hashFails = vs.Int("hash_query_fails", 0, e.maxTry)
 			d.dataFails = vs.Int("data_query_fails", 0, e.maxTry)
 		}
@@ -73,7 +73,6 @@ func c19PlanRequest(e *c19Env, id types.RequestID, maxRaw, nDS int, eidBase int)
 			seen = seen || x == d
 		}
 		if !seen {
-			p.cached[d] = relevant && vs.Bool("cached")
 			p.used = append(p.used, d)
 		}
 		raw := c19PlanRaw(c19EIDs[i]+types.ExternalID(eidBase), d, i%3, relevant && i > 0)
@@ -106,13 +105,13 @@ func (p *c19ReqPlan) processed(e *c19Env) bool {
 	return ok
 }
 
-func (p *c19ReqPlan) loaded(e *c19Env, d *c19DS) bool { return vs.Or(p.cached[d], d.dataFails < e.maxTry) }
+func (p *c19ReqPlan) loaded(e *c19Env, d *c19DS) bool { return vs.Or(d.cached, d.dataFails < e.maxTry) }
 
 // crashes: some raw request of a processed request fetches a short executable over RPC (known finding).
 func (p *c19ReqPlan) crashes(e *c19Env) bool {
 	any := false
 	for _, d := range p.used {
-		any = vs.Or(any, vs.And(!p.cached[d] && len(d.exe) <= 24, d.dataFails < e.maxTry))
+		any = vs.Or(any, vs.And(!d.cached && len(d.exe) <= 24, d.dataFails < e.maxTry))
 	}
 	return vs.And(p.processed(e), any)
 }
@@ -207,7 +206,7 @@ func VerifC19Request() {
 	vs.Assume(rr >= -1 && rr < 1<<62)
 	c := c19Context(e, nKeys, rr)
 	for _, d := range p.used {
-		if p.cached[d] {
+		if d.cached {
 			c.fileCache.AddFile(d.exe)
 		}
 	}
